@@ -7,6 +7,9 @@ Init == \E en \in Engines : \E pr \in Profiles : \E ct \in CTs : \E k \in Kinds 
           \* a stall is "mid-response": after the headers; before them the response timeout governs, not the read timeout
           \/ k = "stall" /\ \E sp \in StallPoints \ {"prehdr"} : scn = [kind |-> k, engine |-> en, profile |-> pr, ct |-> ct, at |-> sp]
           \/ k = "pause" /\ scn = [kind |-> k, engine |-> en, profile |-> pr, ct |-> ct, gap |-> 300]
+          \* a longer timeout (2 s), a chunk 400 ms after the first, then one pause of 1.7 s: below the timeout, but
+          \* longer than what is left of a clock started at the FIRST chunk
+          \/ k = "pause" /\ scn = [kind |-> k, engine |-> en, profile |-> pr, ct |-> ct, gap |-> 1700, rt |-> 2000]
           \/ k = "abort" /\ \E sp \in StallPoints : scn = [kind |-> k, engine |-> en, profile |-> pr, ct |-> ct, at |-> sp]
           \/ k = "leak"  /\ ct = "text/event-stream" /\ scn = [kind |-> k, engine |-> en, profile |-> pr, ct |-> ct, reps |-> 20]
 Next == FALSE /\ UNCHANGED scn
